@@ -52,7 +52,10 @@ type Spec struct {
 	Wrap      string // none | wrapErrors | wrapErrorsUsing
 	KeyLeaf   bool
 	// swarm-style per-world knobs
-	W          [10]int // weights: leaf, basic, nbasic, struct, ptr, slice, map, ustruct, ref, enum
+	W          [11]int // weights: leaf, basic, nbasic, struct, ptr, slice, map, ustruct, ref, enum, tptr
+	UPlainPct  int     // chance that an unnamed struct has only basic fields (identical on both sides)
+	IgnoreMissing bool
+	AutoMethodSrc bool
 	Enums      map[int]int // enum id → member count
 	ULeafPct   int    // C07: chance that a field of an unnamed struct is a fallible leaf
 	UFieldsMax int
@@ -73,7 +76,7 @@ func NewSpec(seed uint64, prop string) *Spec {
 		rng: rand.New(rand.NewPCG(seed, 0x5eed)), maxDepth: 4}
 	r := s.rng
 	s.Format = []string{"struct", "struct", "function", "variables"}[r.IntN(4)]
-	base := [10]int{0, 20, 6, 16, 12, 12, 10, 3, 3, 0}
+	base := [11]int{0, 20, 6, 16, 12, 12, 10, 3, 3, 0, 4}
 	if prop == "C04" {
 		base[9] = 6
 	}
@@ -86,6 +89,9 @@ func NewSpec(seed uint64, prop string) *Spec {
 		s.W[i] = base[i] * mult[r.IntN(len(mult))]
 	}
 	s.ULeafPct = []int{20, 50, 80}[r.IntN(3)]
+	s.UPlainPct = []int{0, 30, 70}[r.IntN(3)]
+	s.IgnoreMissing = r.IntN(2) == 0
+	s.AutoMethodSrc = r.IntN(2) == 0
 	s.UFieldsMax = 2 + r.IntN(3)
 	s.maxDepth = 3 + r.IntN(3)
 	s.SkipCopyMode = "none"
@@ -112,6 +118,32 @@ func NewSpec(seed uint64, prop string) *Spec {
 		// ending in an unnamed struct with several fallible fields: long location paths
 		root := s.Roots[r.IntN(len(s.Roots))]
 		root.Fields = append(root.Fields, s.mkField(len(root.Fields), s.genChain(1+r.IntN(6)), root))
+	}
+	if prop == "C04" && r.IntN(2) == 0 {
+		// shapes the builders treat specially: T → *T around an identical unnamed struct of
+		// basic fields, in field / slice-element / map-value position, reached through a
+		// pointer method as well
+		root := s.Roots[r.IntN(len(s.Roots))]
+		s.PtrRoot[root.ID] = true
+		plain := func() *node {
+			n := &node{Kind: "ustruct"}
+			for i := 0; i < 2+r.IntN(2); i++ {
+				n.Fields = append(n.Fields, &field{Name: fmt.Sprintf("P%d", i), TName: fmt.Sprintf("P%d", i), N: &node{Kind: "basic", Basic: basics[r.IntN(len(basics))]}})
+			}
+			return n
+		}
+		var sp *node
+		switch r.IntN(4) {
+		case 0:
+			sp = &node{Kind: "tptr", Elem: plain()}
+		case 1:
+			sp = &node{Kind: "slice", Elem: &node{Kind: "tptr", Elem: plain()}}
+		case 2:
+			sp = &node{Kind: "map", Key: &node{Kind: "basic", Basic: "string"}, Elem: &node{Kind: "tptr", Elem: plain()}}
+		default:
+			sp = &node{Kind: "slice", Elem: &node{Kind: "slice", Elem: &node{Kind: "tptr", Elem: &node{Kind: "basic", Basic: "int"}}}}
+		}
+		root.Fields = append(root.Fields, &field{Name: fmt.Sprintf("F%d", len(root.Fields)), TName: fmt.Sprintf("F%d", len(root.Fields)), N: sp})
 	}
 	if prop == "C04" && s.SkipCopyMode == "methods" {
 		// one nested named pair with identical-type containers, reachable from two roots
@@ -266,9 +298,12 @@ func (s *Spec) gen(depth int, parent *node) *node {
 	case 7:
 		n := &node{Kind: "ustruct"}
 		nf := 1 + r.IntN(s.UFieldsMax)
+		plain := r.IntN(100) < s.UPlainPct
 		for i := 0; i < nf; i++ {
 			var fn *node
-			if s.Prop == "C07" && r.IntN(100) < s.ULeafPct {
+			if plain {
+				fn = &node{Kind: "basic", Basic: basics[r.IntN(len(basics))]}
+			} else if s.Prop == "C07" && r.IntN(100) < s.ULeafPct {
 				fn = s.leafNoMap()
 			} else {
 				fn = s.gen(depth+1, nil)
@@ -276,6 +311,12 @@ func (s *Spec) gen(depth int, parent *node) *node {
 			n.Fields = append(n.Fields, &field{Name: fmt.Sprintf("U%d", i), TName: fmt.Sprintf("U%d", i), N: fn})
 		}
 		return n
+	case 10:
+		e := s.gen(depth+1, nil)
+		if e.Kind == "ptr" || e.Kind == "tptr" || e.Kind == "leaf" {
+			return e
+		}
+		return &node{Kind: "tptr", Elem: e}
 	case 9:
 		n := &node{Kind: "enum", ID: s.id()}
 		s.Enums[n.ID] = []int{2, 3, 5, 8, 9, 12, 16}[r.IntN(7)]
@@ -336,6 +377,12 @@ func (s *Spec) expr(n *node, side string) string {
 		return fmt.Sprintf("SE%d", n.ID)
 	case "ptr":
 		return "*" + s.expr(n.Elem, side)
+	case "tptr":
+		// T on the source side, *T on the target side (any position)
+		if side == "T" {
+			return "*" + s.expr(n.Elem, side)
+		}
+		return s.expr(n.Elem, side)
 	case "slice":
 		return "[]" + s.expr(n.Elem, side)
 	case "map":
@@ -505,7 +552,7 @@ func (s *Spec) methods(twin bool) []methodSpec {
 		if n.MethodSrc && twin {
 			doc = append(doc, fmt.Sprintf("goverter:map TwinCalc%d Calc%d", id, id))
 		}
-		if n.MethodSrc && !twin {
+		if n.MethodSrc && !twin && !s.AutoMethodSrc {
 			doc = append(doc, fmt.Sprintf("goverter:map Calc%d Calc%d", id, id))
 		}
 		isRoot := false
@@ -514,7 +561,7 @@ func (s *Spec) methods(twin bool) []methodSpec {
 				isRoot = true
 			}
 		}
-		if len(doc) > 0 || isRoot {
+		if len(doc) > 0 || isRoot || n.MethodSrc || n.Ctor {
 			ms = append(ms, methodSpec{Name: fmt.Sprintf("Conv%d", id), In: fmt.Sprintf("S%d", id), Out: out(fmt.Sprintf("T%d", id)), Doc: doc})
 		}
 	}
@@ -559,6 +606,9 @@ func (s *Spec) ConverterSource() string {
 		}
 		if len(s.Enums) > 0 {
 			lines = append(lines, "// goverter:enum:unknown @ignore")
+		}
+		if s.IgnoreMissing {
+			lines = append(lines, "// goverter:ignoreMissing")
 		}
 		if !twin {
 			switch s.Wrap {
@@ -634,7 +684,7 @@ func (s *Spec) exprsIn(n *node, out map[string]bool, seen map[int]bool) {
 		for _, f := range n.Fields {
 			s.exprsIn(f.N, out, seen)
 		}
-	case "ptr", "slice":
+	case "ptr", "slice", "tptr":
 		s.exprsIn(n.Elem, out, seen)
 	case "map":
 		s.exprsIn(n.Key, out, seen)
@@ -717,4 +767,62 @@ func (s *Spec) EnumTargetSource() string {
 		b.WriteString(")\n")
 	}
 	return b.String()
+}
+
+// ManualSpec builds a minimal C07 world with exactly one fallible position of the given
+// kind (extend | extendconv | mapfunc | methodsrc-auto | methodsrc-map | ctor) at the given
+// position (direct | slice | map | ptr | nested | nested-slice), for the generation-time
+// clause matrix.
+func ManualSpec(kind, position string, ignoreMissing bool, format, wrap string) *Spec {
+	s := &Spec{Prop: "C07", Structs: map[int]*node{}, NBasics: map[int]string{}, Leaves: map[int]*leafInfo{}, Enums: map[int]int{},
+		PtrRoot: map[int]bool{}, MethodSkip: map[string]bool{}, Format: format, Wrap: wrap, IgnoreMissing: ignoreMissing, SkipCopyMode: "none",
+		rng: rand.New(rand.NewPCG(1, 2))}
+	root := &node{Kind: "struct", ID: s.id()}
+	s.Structs[root.ID] = root
+	s.Roots = []*node{root}
+	root.Fields = append(root.Fields, &field{Name: "F0", TName: "F0", N: &node{Kind: "basic", Basic: "int"}})
+	// the struct that carries the fallible thing
+	var carrier *node
+	switch position {
+	case "direct":
+		carrier = root
+	default:
+		carrier = &node{Kind: "struct", ID: s.id()}
+		s.Structs[carrier.ID] = carrier
+		carrier.Fields = append(carrier.Fields, &field{Name: "F0", TName: "F0", N: &node{Kind: "basic", Basic: "string"}})
+		var wrapN *node = carrier
+		switch position {
+		case "slice":
+			wrapN = &node{Kind: "slice", Elem: carrier}
+		case "map":
+			wrapN = &node{Kind: "map", Key: &node{Kind: "basic", Basic: "string"}, Elem: carrier}
+		case "ptr":
+			wrapN = &node{Kind: "ptr", Elem: carrier}
+		case "nested-slice":
+			wrapN = &node{Kind: "slice", Elem: &node{Kind: "slice", Elem: carrier}}
+		}
+		root.Fields = append(root.Fields, &field{Name: "F1", TName: "F1", N: wrapN})
+	}
+	switch kind {
+	case "extend", "extendconv", "mapfunc":
+		n := &node{Kind: "leaf", ID: s.id()}
+		fn := fmt.Sprintf("ConvLeaf%d", n.ID)
+		if kind == "mapfunc" {
+			fn = fmt.Sprintf("MapLeaf%d", n.ID)
+		}
+		s.Leaves[n.ID] = &leafInfo{ID: n.ID, Mode: kind, Fn: fn}
+		f := &field{Name: fmt.Sprintf("F%d", len(carrier.Fields)), TName: fmt.Sprintf("F%d", len(carrier.Fields)), N: n}
+		if kind == "mapfunc" {
+			f.MapFunc = fn
+		}
+		carrier.Fields = append(carrier.Fields, f)
+	case "methodsrc-auto":
+		carrier.MethodSrc = true
+		s.AutoMethodSrc = true
+	case "methodsrc-map":
+		carrier.MethodSrc = true
+	case "ctor":
+		carrier.Ctor = true
+	}
+	return s
 }
